@@ -83,9 +83,15 @@ def run(tier, seed, broken_proof=False):
     jobs = []
     dcases_all = {}
     nref = 0
+    # a third of the generated bases get arbitrary (sparse / 0-based / permuted) keys: keys matter for the fact constraints
+    for c in cases:
+        if c["id"][0] in "sw" and c["base"] and rng.random() < 0.35:
+            ks = rng.sample(range(0, 3 * len(c["base"]) + 4), len(c["base"]))
+            c["base"] = [(ks[i], b, a) for i, (_, b, a) in enumerate(c["base"])]
+    mres = common.run_model(cases)
     for c in cases:
         dcs = []
-        if rng.random() < 0.35 or c["id"].startswith(("edge", "corp")):
+        if rng.random() < 0.35 or c["id"].startswith(("edge", "corp")) or (c["base"] and c["base"][0][0] != 1):
             for (ext, uf) in ((False, False), (False, True), (True, False), (True, True)):
                 nf = rng.randrange(0, 4) if uf and rng.random() < 0.1 else (rng.randrange(1, 4) if uf else 0)
                 facts = [gen_formula(rng, c["n"], 1, 0.05) for _ in range(nf)]
